@@ -389,10 +389,59 @@ theorem inv_rread (p : Prog) (s : Sys) (r n : Nat) (h : Inv p s) : Inv p (step p
         · simp [upd, hrr] at hr'; exact h.finished_ok r' b snap' hr'
   · exact h
 
+/-- a failed write: the temp file is removed, the writer gives up; nothing else is touched -/
+theorem inv_wfail (p : Prog) (s : Sys) (w n : Nat) (h : Inv p s) : Inv p (step p s (.wfail w n)) := by
+  simp only [step]
+  split
+  · rename_i t i off hw
+    have hown_w : Owns s w i := Or.inl ⟨t, off, hw⟩
+    have hown : ∀ w' j, Owns { s with ino := upd s.ino i ((p.wdata w).take (min (off + n) (p.wdata w).length)),
+                                      dir := upd s.dir (.tmp t) none,
+                                      wst := upd s.wst w .dead } w' j → Owns s w' j ∧ w' ≠ w := by
+      intro w' j ho
+      simp only [Owns] at ho ⊢
+      by_cases hww : w' = w
+      · subst hww; simp at ho
+      · exact ⟨by simpa [upd, hww] using ho, hww⟩
+    have hkey : ∀ k, upd s.dir (.tmp t) none (.key k) = s.dir (.key k) := by
+      intro k; simp [upd]
+    constructor
+    · intro k j hk
+      simp only [hkey] at hk
+      obtain ⟨w0, h1, h2, h3, h4, h5, h6⟩ := h.key_sealed k j hk
+      have hji : j ≠ i := fun e => h5 w (e ▸ hown_w)
+      have hw0 : w0 ≠ w := fun e => by subst e; simp [hw] at h4
+      exact ⟨w0, h1, h2, by simpa [upd, hji] using h3, by simp [upd, hw0, h4],
+        fun w' ho => h5 w' (hown w' j ho).1, h6⟩
+    · intro k hk
+      simp only [hkey] at hk
+      exact h.cur_none k hk
+    · intro w' j ho; exact h.own_lt w' j (hown w' j ho).1
+    · intro w1 w2 j h1 h2; exact h.own_inj w1 w2 j (hown _ _ h1).1 (hown _ _ h2).1
+    · intro w' t' j off' hw'
+      by_cases hww : w' = w
+      · subst hww; simp at hw'
+      · simp [upd, hww] at hw'
+        have hj : j ≠ i := fun e => hww (h.own_inj w' w i (e ▸ Or.inl ⟨t', off', hw'⟩) hown_w)
+        simpa [upd, hj] using h.opened_prefix w' t' j off' hw'
+    · intro w' t' j hw'
+      by_cases hww : w' = w
+      · subst hww; simp at hw'
+      · simp [upd, hww] at hw'
+        have hj : j ≠ i := fun e => hww (h.own_inj w' w i (e ▸ Or.inr ⟨t', hw'⟩) hown_w)
+        simpa [upd, hj] using h.closed_full w' t' j hw'
+    · intro r j buf snap hr
+      obtain ⟨h1, hlt, w0, h2⟩ := h.reading_ok r j buf snap hr
+      have hji : j ≠ i := fun e => h1 w (e ▸ hown_w)
+      exact ⟨fun w' ho => h1 w' (hown w' j ho).1, hlt, w0, by simpa [upd, hji] using h2⟩
+    · exact h.finished_ok
+  · exact h
+
 theorem inv_step (p : Prog) (s : Sys) (e : Event) (h : Inv p s) : Inv p (step p s e) := by
   cases e with
   | create w t => exact inv_create p s w t h
   | write w n => exact inv_write p s w n h
+  | wfail w n => exact inv_wfail p s w n h
   | close w => exact inv_close p s w h
   | rename w => exact inv_rename p s w h
   | crash w => exact inv_crash p s w h
